@@ -26,35 +26,33 @@ theorem lsLoop_descent (c : Consts α) (hc : 0 ≤ c.suffDecr) (sparse : Bool) (
          f ≤ fOld) := by
   intro fuel
   induction fuel with
-  | zero => intro count step acc hcnt hg; exact ⟨hg, Or.inl (by simpa using hcnt)⟩
+  | zero =>
+    intro count step acc hcnt hg
+    exact ⟨hg, Or.inl (by simp only [lsLoop]; omega)⟩
   | succ fuel ih =>
     intro count step acc hcnt hg
     simp only [lsLoop]
     split
-    · have := ih (count + 1) (step * c.stepRed) ⟨_, none, count + 1⟩ rfl (by intro f hf; cases hf)
-      refine ⟨this.1, ?_⟩
-      rcases this.2 with h | h
-      · left; rw [h]; omega
-      · exact Or.inr h
+    · refine ⟨(ih (count + 1) _ _ rfl ?_).1, (ih (count + 1) _ _ rfl ?_).2.imp (fun e => Eq.trans e (by omega)) id⟩ <;>
+        (intro f hf; cases hf)
     · next hdesc =>
       split
       · next harm =>
-        refine ⟨by intro f hf; cases hf; rfl, Or.inr ⟨_, rfl, ?_⟩⟩
+        constructor
+        · intro f hf
+          simp only [Option.some.injEq] at hf
+          subst hf
+          rfl
+        refine Or.inr ⟨_, rfl, ?_⟩
         -- not (0 < gDotd): the step is a descent direction; Armijo bound below f_old
         simp only [Bool.or_eq_true, not_or] at hdesc
-        have hgd : ¬ (0 : α) < _ := by
-          have := hdesc.1
-          simpa [NumOps.ofField] using this
-        have hle : _ ≤ armijoBound fOld c.suffDecr _ := by
-          simpa [NumOps.ofField] using harm
-        unfold armijoBound at hle
-        exact le_trans hle (by nlinarith [not_lt.mp hgd])
-      · have := ih (count + 1) (step * c.stepRed) ⟨_, some _, count + 1⟩ rfl
-          (by intro f hf; cases hf; rfl)
-        refine ⟨this.1, ?_⟩
-        rcases this.2 with h | h
-        · left; rw [h]; omega
-        · exact Or.inr h
+        have h1 : ¬ _ := fun h => hdesc.1 (decide_eq_true h)
+        have h2 := of_decide_eq_true harm
+        unfold armijoBound at h2
+        have h3 := mul_nonpos_of_nonneg_of_nonpos hc (not_lt.mp h1)
+        linarith
+      · refine ⟨(ih (count + 1) _ _ rfl ?_).1, (ih (count + 1) _ _ rfl ?_).2.imp (fun e => Eq.trans e (by omega)) id⟩ <;>
+          (intro f hf; simp only [Option.some.injEq] at hf; subst hf; rfl)
 
 /-- Either the fall-back (projected multiplicative step) is returned, or the new row is at
 least as likely as the old one: `-loglik_row(new) ≤ -loglik_row(old)`. -/
@@ -75,9 +73,8 @@ theorem lineSearch_descent (c : Consts α) (hc : 0 ≤ c.suffDecr) (sparse : Boo
   generalize lsLoop (NumOps.ofField log) c sparse dir grad mOld x Pi R
     (rowNegLL (NumOps.ofField log) sparse x Pi mOld R) c.maxSteps 1 c.stepLen
     ⟨(List.range R).map fun r => project (NumOps.ofField log).gt0 (vget mOld r), none, 1⟩ = r at key ⊢
-  by_cases hcond : ((decide (c.maxSteps ≤ r.count) && (match r.fNew with
-      | none => true
-      | some f => (NumOps.ofField log).lt (rowNegLL (NumOps.ofField log) sparse x Pi mOld R) f)) ||
+  by_cases hcond : ((decide (c.maxSteps ≤ r.count) &&
+      lsWorse (NumOps.ofField log) (rowNegLL (NumOps.ofField log) sparse x Pi mOld R) r.fNew) ||
       (NumOps.ofField log).lt (sumOver R fun k => vget r.mNew k) c.smallStepTol) = true
   · left; rw [if_pos hcond]
   · right
@@ -86,11 +83,11 @@ theorem lineSearch_descent (c : Consts α) (hc : 0 ≤ c.suffDecr) (sparse : Boo
     rcases key.2 with hcount | ⟨f, hf, hle⟩
     · have hw := hcond.1 (by omega)
       cases hfn : r.fNew with
-      | none => rw [hfn] at hw; simp at hw
+      | none => rw [hfn] at hw; simp [lsWorse] at hw
       | some f =>
         rw [hfn] at hw
         have : ¬ rowNegLL (NumOps.ofField log) sparse x Pi mOld R < f := by
-          simpa [NumOps.ofField] using hw
+          simpa [lsWorse, NumOps.ofField] using hw
         rw [← key.1 f hfn]
         exact not_lt.mp this
     · rw [← key.1 f hf]; exact hle
